@@ -222,7 +222,7 @@ def run(ctx):
         for (sp, a), v in zip(bowners, bv):
             ctx.cov['correspondence']['cases'] += 1
             ctx.cov['correspondence']['components_compared'] += 2
-            for nm, ok in zip(['level rows of the time blocks', 'block boundaries form blocks (hypothesis of C05_time_blocks)'], v):
+            for nm, ok in zip(['level rows of the time blocks', 'block boundaries form blocks'], v):
                 if not ok:
                     ctx.cov['correspondence']['disagreements'] += 1
                     ctx.broken('correspondence-broken', {'spec': sp, 'asset': a, 'theorem_or_correspondence': 'Storage.setup_optim_problem vs StorageBlocks.st_block_rows: ' + nm})
